@@ -11,15 +11,20 @@ ASSUMPTIONS = ["A-VM", "A-U64",
                "the operation (the weekly splitting is C11's subject); the dex/farm theorem therefore says 'same boosted "
                "input -> same total', and that view and claimRewards really compute the same boosted amount in the same "
                "state is decided on the real contracts by this property's monitor",
+               "A-C20-STAKING-DEFAULT: farm-staking's view without the user argument uses the position's recorded original "
+               "owner; for a TRANSFERRED position claimed by somebody else that quote contains the owner's boosted part "
+               "(theorem C20_staking_default_user) and is not compared with the claimer's payout - the quote with the claimer "
+               "passed explicitly is, always",
                "A-C20-ARGS: getPenaltyAmount is quoted with the arguments the endpoints themselves pass to "
                "calculate_penalty_amount (remaining epochs of the token paid in, remaining epochs of the token received)"]
 M = 100000
-F3_KEY = "farm-staking:calculateRewardsForGivenPosition:pending-boosted"
 
 RULE = ("five subsystems, each driven by its own stateful mostly-valid generator on the real contracts (pair: both swap "
         "modes and directions, fees 0..5%, special fee/collector on and off, liquidity add/remove, quotes against an "
         "empty pool, unknown token, zero / at-reserve amounts; dex/farm: enter/claim/exit/merge/compound/transfer with "
-        "boosted yields on and off, energy, week changes; farm-staking: the same with APR cap and capacity; energy "
+        "boosted yields on and off, energy, week changes; farm-staking: the same with APR cap and capacity, its view "
+        "queried twice per claim: with the claimer as explicit user and without the argument (compared when the claimer "
+        "is the position's original owner; a transferred position quoted without the argument is only counted); energy "
         "factory: lock/extend/unlockEarly/reduceLockPeriod over random option tables, epochs on and off month "
         "boundaries, amounts 1..1e22; dex/farm-with-locked-rewards with a real energy factory (monitor only, no model "
         "replay); price discovery: every phase boundary at -1/0/+1, deposits and withdrawals at the "
@@ -32,7 +37,8 @@ RULE = ("five subsystems, each driven by its own stateful mostly-valid generator
 
 # minimised histories replayed before the random ones
 CORPUS = [
-    dict(system="staking", name="f3-pending-boosted",       # = StkQ.f3_state of coq/Proofs/QuotesProofs.v
+    dict(system="staking", name="f3-pending-boosted",       # = StkQ.f3_state of coq/Proofs/QuotesProofs.v; since e810a71: view 4791 = claim 4791
+         expect=dict(view=4791, paid=4791),
          cfg=dict(dsc=10 ** 12, apr=10 ** 6, minub=10, boost=True),
          ops=[["SetRate", 100, 1000], ["SetState", 100, 1], ["TopUp", 100, 10 ** 9], ["Start", 100],
               ["SetPct", 100, 2500], ["SetFactors", 100, [2, 1, 1, 1, 1]],
@@ -160,26 +166,20 @@ def mon_farm(cfg, op, o, system="farm"):
 def mon_staking(cfg, op, o):
     out = []
     common_q("farm-staking", o, out)
-    if op[0] != "Claim":
+    if op[0] != "Claim" or not o["ok"]:
         return out
-    q = main_q(o, view="calculateRewardsForGivenPosition")
-    if q is None:
-        return out
-    if o["ok"]:
-        paid = o["outs"][2]
-        if not q["ok"]:
+    paid = o["outs"][2]
+    c = op[1]
+    for q in o.get("q20", []):
+        if q.get("view") != "calculateRewardsForGivenPosition":
+            continue
+        if q["mode"] == "default" and q["owner"] != c:
+            continue        # transferred position quoted without the user argument: the view quotes the OWNER's boosted part
+        if not q["ok"] or q["v"] != paid:
+            how = "with the claimer passed" if q["mode"] == "explicit" else "without user argument (claimer = original owner)"
             out.append(("farm-staking:calculateRewardsForGivenPosition:claimRewards",
-                        f"{op}: view failed ('{q['msg']}') but claimRewards paid {paid}"))
-        elif q["v"] != paid:
-            diff = paid - q["v"]
-            if o["b"] > 0 and diff == o["b"]:
-                # exactly the boosted payout (measured independently: decrease of the boosted pools): F3
-                out.append((F3_KEY, f"{op} at block {o['blk']}: calculateRewardsForGivenPosition = {q['v']}, claimRewards paid "
-                                    f"{paid}; the difference {diff} is the claimer's boosted reward (the view passes the zero address)"))
-            else:
-                out.append(("farm-staking:calculateRewardsForGivenPosition:claimRewards",
-                            f"{op} at block {o['blk']}: view quoted {q['v']}, claimRewards paid {paid}, boosted part {o['b']}: "
-                            f"the difference {diff} is NOT the boosted payout"))
+                        f"{op} at block {o['blk']}: view {how} quoted {q['v'] if q['ok'] else 'error ' + q['msg']}, "
+                        f"claimRewards paid {paid} (boosted part {o['b']})"))
     return out
 
 
@@ -365,6 +365,15 @@ def explore(tier, seed, model_ok=True, focus=False):
     for system, sd, cfg, h in hist:
         trace = sq.trace_of(system, h)
         ops_all = _jsonable_ops([t[0] for t in trace])
+        if isinstance(sd, tuple) and sd[0] == "corpus":
+            exp = next((c.get("expect") for c in CORPUS if c["name"] == sd[1]), None)
+            if exp:
+                lo = trace[-1][1]
+                got = dict(view=[q["v"] for q in lo.get("q20", [])], paid=lo["outs"][2] if lo["ok"] else None)
+                if not lo["ok"] or got["paid"] != exp["paid"] or any(v != exp["view"] for v in got["view"]) or not got["view"]:
+                    ex.failures.append(dict(key=f"corpus:{sd[1]}", what=f"regression history {sd[1]}: views {got['view']}, paid "
+                                            f"{got['paid']}; expected view {exp['view']} = paid {exp['paid']}",
+                                            replay=dict(system=system, cfg=cfg, ops=ops_all, seed=sd)))
         ex.histories += 1
         ex.count(f"{system}:histories")
         for idx, (op, o) in enumerate(trace):
@@ -383,6 +392,15 @@ def explore(tier, seed, model_ok=True, focus=False):
                     ex.count(f"{system}:quoted-claim-with-boosted>0")
                 if system in ("farm", "staking", "lfarm") and any(q.get("tx_ok") is False for q in qs):
                     ex.count(f"{system}:view-refused-in-transaction")
+                if system == "staking" and o["ok"]:
+                    for q in qs:
+                        ex.count(f"staking:quote-{q['mode']}")
+                        if o.get("b", 0) > 0:
+                            ex.count(f"staking:quote-{q['mode']}-with-boosted>0")
+                        if q["mode"] == "default" and q["owner"] != op[1]:
+                            ex.count("staking:default-quote-on-transferred-position(not compared)")
+                            if q["ok"] and q["v"] != o["outs"][2]:
+                                ex.count("staking:default-quote-on-transferred-position-differs-from-payout")
                 if system == "locking" and qs[0].get("raw") is not None and qs[0]["ok"] and qs[0]["raw"] != qs[0]["v"]:
                     ex.count("locking:quote-with-raw-lock-option-differs")
             k = nontrivial(system, cfg, op, o)
